@@ -118,7 +118,9 @@ def text_family(chk, exe, d, tier, rng):
     if verd[-1]['v'] != 'bad':
         raise vlib.MachineryError("canary accepted by XTextV: binding is not live (%s)" % verd[-1])
     cnt = collections.Counter(); ok = 0
-    for (sid, text, inp), r, v in zip(srcs, res, verd[:-1]):
+    bysid = {sid: (text, inp) for sid, text, inp in srcs}
+    for rec, r, v in zip(recs, res, verd[:-1]):
+        sid = rec['id']; text, inp = bysid[sid]
         cnt[v['v'] + (":" + v['why'] if v['v'] == 'skip' else '')] += 1
         if v['v'] == 'ok':
             ok += 1
